@@ -142,8 +142,9 @@ func (x *Explorer) doCallVals(st *State, f *Frame, ins ssa.Instruction, c *ssa.C
 				x.inline(st, f, target, bindings, allArgs, site, res, isDefer)
 				return
 			}
-			x.havocPointees(st, allArgs)
-			x.havocCall(st, f, key, sig, res, isDefer)
+			// an uncontracted callee outside the module: unconstrained results, pointees of its
+			// pointer arguments unconstrained; observers still see the call
+			x.havocCallObs(st, f, key, target.Name(), site, sig, res, isDefer, allArgs)
 			return
 		}
 	}
